@@ -190,3 +190,22 @@ contract(_C + '.create_roadm_element', name=_C + '.create_roadm_element[one Road
                   ('type_variety_of_the_row', "implies(row.type_variety is not None, result['type_variety'] == row.type_variety) and "
                                               "implies(row.type_variety is None, 'type_variety' not in result)")],
          modifies=[])
+
+# ---- Roadms sheet rows with impairment columns, and node restrictions of the Nodes sheet (fixed texts: splitting a symbolic cell is not modelled)
+_ROW_IMP = lambda fd, ids: obj('Roadm', from_node=const('A'), to_node=const('B'), target_pch_out_db=CELL(), from_degrees=const(fd),
+                                impairment_ids=const(ids), type_variety=const(None))
+contract(_C + '.create_roadm_element', name=_C + '.create_roadm_element[from degrees C | D with impairment ids 1 | 2]', props=['C20', 'C06'],
+         params={'node': _NODE_A, 'roadms_by_city': dct(A=lst(_ROW_IMP('C | D', '1 | 2')))},
+         let={'imp': "result['params']['per_degree_impairments']"},
+         ensures=[('one_entry_per_from_degree_towards_the_named_neighbour',
+                   "len(imp) == 2 and imp[0] == {'from_degree': 'west edfa in A to C', 'to_degree': 'east edfa in A to B', 'impairment_id': 1} and "
+                   "imp[1] == {'from_degree': 'west edfa in A to D', 'to_degree': 'east edfa in A to B', 'impairment_id': 2}")],
+         modifies=[])
+contract(_C + '.create_roadm_element', name=_C + '.create_roadm_element[restrictions of the Nodes sheet]', props=['C20', 'C10'],
+         params={'node': obj('Node', city=const('A'), region=string(), latitude=real(), longitude=real(),
+                             preamp_restriction=const('std_low_gain | std_medium_gain'), booster_restriction=const('')),
+                 'roadms_by_city': dct()},
+         ensures=[('restriction_lists', "result['params']['restrictions']['preamp_variety_list'] == ['std_low_gain', 'std_medium_gain'] and "
+                                        "result['params']['restrictions']['booster_variety_list'] == []"),
+                  ('no_per_degree_block', "'per_degree_pch_out_db' not in result['params']")],
+         modifies=[])
